@@ -422,7 +422,7 @@ pub fn run(cx: &mut Ctx) {
             }
         });
     }
-    let n = cx.a.n(8_000, 500_000);
+    let n = cx.a.n(100_000, 1_000_000);
     for _ in 0..n {
         cx.case("random", |c| {
             let mut rng = c.rng.clone();
